@@ -211,6 +211,18 @@ def run(ctx):
         st = graphwalk.walk(g, adapter, ctx, name, paths_per_state=4)
         ctx.note("walk %s" % st)
     ctx.exhaustive = True
+    # unbounded in depth: Apalache discharges an inductive invariant of the reorder buffer (and fails on the negative control)
+    from vlib import apalache
+    ind = os.path.join(tlc.SPECS, "adt", "ReorderBufferInd.tla")
+    base = apalache.check(ind, "CInitOk", "Init", "IndInv", 0)
+    step = apalache.check(ind, "CInitOk", "IndInit", "IndInv", 1)
+    neg = apalache.check(ind, "CInitNeg", "IndInit", "IndInv", 1)
+    ctx.extra["apalache_inductive_invariant"] = {"module": "ReorderBufferInd.tla", "N": 8, "init_implies_inv": base[0], "inductive_step": step[0],
+                                                  "negative_control_violated": neg[1], "seconds": round(base[2] + step[2] + neg[2], 1)}
+    if base[0] is None or step[0] is None:
+        ctx.note("apalache not available or timed out: the inductive leg was skipped (%s)" % (step[3][:100],))
+    elif not (base[0] and step[0]) or not neg[1]:
+        raise tlc.MachineryError("Apalache: the inductive invariant of ReorderBufferInd does not go through: %s / %s / %s" % (base[3][-200:], step[3][-200:], neg[3][-200:]))
     rnd = random.Random(ctx.seed * 7919 + 15)
     n = 20 if quick else 200
     big = 200
